@@ -299,6 +299,16 @@ func (s *Session) Watched(events map[string]int) error {
 	return s.Notify("workspace/didChangeWatchedFiles", map[string]interface{}{"changes": ch})
 }
 
+// WatchedSeq sends one didChangeWatchedFiles notification with the given (file, type) events in order; a file may
+// occur more than once (an editor that writes a new file reports Created and Changed together).
+func (s *Session) WatchedSeq(events [][2]interface{}) error {
+	var ch []map[string]interface{}
+	for _, e := range events {
+		ch = append(ch, map[string]interface{}{"uri": s.URI(e[0].(string)), "type": e[1].(int)})
+	}
+	return s.Notify("workspace/didChangeWatchedFiles", map[string]interface{}{"changes": ch})
+}
+
 func (s *Session) posParams(rel string, line, ch int) map[string]interface{} {
 	return map[string]interface{}{
 		"textDocument": map[string]interface{}{"uri": s.URI(rel)},
